@@ -218,7 +218,7 @@ def run_contracts(reg, contracts, lemmas, want_models=True):
         readback = _readback(eng)
         # canary: the precondition must be satisfiable
         cover_goal = z3.BoolVal(False)
-        for vc in vcs + [sx.VC("%s.cover.requires" % c.name, "cover", eng.requires_terms, cover_goal, c.key)]:
+        for vc in vcs + [sx.VC("%s.cover.requires" % c.key.split("::")[-1], "cover", eng.requires_terms, cover_goal, c.key)]:
             if getattr(vc, "trivial", False) and vc.kind != "cover":
                 meta.append((c, vc, None))
                 continue
@@ -400,6 +400,28 @@ def run_property(prop, tier, seed):
             "pyvc VC generator (/verif/pyvc, ~1.5 kLOC) and its encoding assumptions A-int, A-float",
             "z3 %s / cvc5 1.0.3 answers" % z3.get_version_string()]
         out["lemmas"] = [lm.name for lm in lemmas]
+        for c in contracts:
+            short = c.key.split("::")[-1]
+            frag = getattr(c, "fragment", None)
+            if frag:
+                what = ("the first %d statement(s)" % frag["head"]) if "head" in frag else (
+                    "top-level loop #%d%s" % (frag["loop"], (" and the %d statements before it" % frag["prelude"])
+                                              if frag.get("prelude") else ""))
+                out["assumptions"].append("fragment %s: only %s of the function is verified, from the live-in variables "
+                                          "%s; the rest of the function is NOT verified here" % (short, what, list(c.params)))
+            for nm, d in (getattr(c, "opaque_calls", None) or {}).items():
+                if "fn" in d:
+                    out["assumptions"].append("%s: %s(...) is abstracted as the uninterpreted function %s (assumed pure%s; "
+                                              "its value is not verified here)" % (
+                                                  short, nm, d["fn"], ", finite" if d.get("below_inf") else ""))
+                else:
+                    out["assumptions"].append("%s: the result of %s(...) is an object the fragment does not look into; "
+                                              "the call is assumed to return normally" % (short, nm))
+            if getattr(c, "opaque_glue", False):
+                out["assumptions"].append("%s: attribute reads, subscripts and comprehensions over unmodelled objects are "
+                                          "assumed to return normally (their exceptions are not analysed)" % short)
+            for nm in (getattr(c, "assumed", None) or {}):
+                out["assumptions"].append("%s: ensures clause %s is assumed (checked at run time only)" % (short, nm))
     except Exception:
         out["crashes"].append(traceback.format_exc()[-3000:])
     return out
